@@ -433,6 +433,102 @@ func (y *c20Yaml) render(muts []c20Mut, dels map[string]bool) (text string, line
 	return sb.String(), lineOf
 }
 
+// sections lists the paths of the mapping-valued keys (a key with nothing after the colon and deeper lines below).
+func (y *c20Yaml) sections() (res []string) {
+	for p, i := range y.at {
+		if y.dist[p] != "" {
+			continue
+		}
+		ind := len(y.lines[i]) - len(strings.TrimLeft(y.lines[i], " "))
+		for j := i + 1; j < len(y.lines); j++ {
+			tr := strings.TrimSpace(y.lines[j])
+			if tr == "" || strings.HasPrefix(tr, "#") {
+				continue
+			}
+			if len(y.lines[j])-len(strings.TrimLeft(y.lines[j], " ")) > ind && !strings.HasPrefix(strings.TrimSpace(y.lines[i]), "- ") {
+				res = append(res, p)
+			}
+			break
+		}
+	}
+	sort.Strings(res)
+	return res
+}
+
+// renderSection returns the example with the section at path p set to null or removed.
+func (y *c20Yaml) renderSection(p, mode string) string {
+	i := y.at[p]
+	ind := len(y.lines[i]) - len(strings.TrimLeft(y.lines[i], " "))
+	var sb strings.Builder
+	skip := false
+	for j, ln := range y.lines {
+		if j == i {
+			skip = true
+			if mode == "null" {
+				sb.WriteString(ln[:strings.Index(ln, ":")+1] + " null\n")
+			}
+			continue
+		}
+		if skip {
+			tr := strings.TrimSpace(ln)
+			if tr == "" || strings.HasPrefix(tr, "#") || len(ln)-len(strings.TrimLeft(ln, " ")) > ind {
+				continue
+			}
+			skip = false
+		}
+		sb.WriteString(ln)
+		sb.WriteByte('\n')
+	}
+	return sb.String()
+}
+
+func (e *c20Env) runSection(id int, sec, mode string) (ev *c20Event) {
+	ev = &c20Event{ID: id, Mut: []c20Mut{}, Named: []string{}, Unsafe: []string{}, Ran: []string{"not exercised"}, Ms: []int{},
+		Section: sec + "=" + mode}
+	if err := os.WriteFile(e.envs.ConfPath, []byte(e.yaml.renderSection(sec, mode)), 0o600); err != nil {
+		e.t.Fatal(err)
+	}
+	var err error
+	stage := "parse"
+	crash := c20Recover("validation", func() {
+		var c *configuration
+		c, err = parseConfig(e.envs.ConfPath)
+		if err != nil {
+			return
+		}
+		stage = "validate"
+		if err = c.validate(); err != nil {
+			return
+		}
+		stage = "env"
+		if err = e.envs.validateFromValidConfig(c); err != nil {
+			return
+		}
+		stage = "accepted"
+	})
+	ev.Stage = stage
+	switch {
+	case crash != "":
+		ev.Crashed, ev.Err = true, crash
+	case err != nil:
+		ev.Err = err.Error()
+		if len(ev.Err) > 500 {
+			ev.Err = ev.Err[:500]
+		}
+		// named: the section's own key, or any key on its path, appears as a word in the error text
+		ks := strings.Split(sec, "/")
+		for k := len(ks) - 1; k >= 0; k-- {
+			if regexp.MustCompile(`(^|[^A-Za-z0-9_])` + regexp.QuoteMeta(ks[k]) + `($|[^A-Za-z0-9_])`).MatchString(ev.Err) {
+				ev.Named = []string{sec}
+				break
+			}
+		}
+	default:
+		ev.Accepted = true
+	}
+	return ev
+}
+
 // ---------------------------------------------------------------- events
 
 type c20Event struct {
@@ -447,6 +543,8 @@ type c20Event struct {
 	Unsafe   []string `json:"unsafe"`
 	Ran      []string `json:"ran"`
 	Ms       []int    `json:"ms"`
+	// Section: not a field mutation but a whole section of the example made null or removed
+	Section string `json:"section"`
 }
 
 // c20Named returns the mutated fields which the error text names: by the name
@@ -1358,6 +1456,14 @@ func TestVerifC20(t *testing.T) {
 	}
 	// the distributed example itself
 	emit(nil)
+	// every section (mapping) of the example missing: set to null, or removed with everything below it.
+	// Whatever the verdict, it must be a verdict (accepted, or rejected naming the section), not a crash.
+	for _, sec := range e.yaml.sections() {
+		for _, mode := range []string{"null", "removed"} {
+			id++
+			out.Emit(e.runSection(id, sec, mode))
+		}
+	}
 	// Replay / focus mode: VERIF_C20_FOCUS="field=class[:value],field=class" runs
 	// only that vector, VERIF_N times.
 	if focus := os.Getenv("VERIF_C20_FOCUS"); focus != "" {
